@@ -1563,11 +1563,15 @@ def rule_RL(ctx, floor=6):
             m = re.search(r'case\s+(-?\d+)\s*:\s*goto', fa[0])
             if m:
                 case0 = int(m.group(1))
-    if not finished:
-        raise AnalysisError('GeneratorBodyDefNode no longer emits `->resume_label = <const>;` at function exit')
     if case0 is None:
         raise AnalysisError('GeneratorBodyDefNode no longer emits a constant first-run case')
     r.inst('finished-marker', sample='finished marker(s) %s, first-run case %d' % (sorted(finished), case0))
+    if not finished:
+        # the emission itself is the obligation: without it nothing ever tells the C runtime that the body ran to its end
+        r.violate('finished-marker:missing', 'Cython/Compiler/Nodes.py', gf.lineno,
+                  'GeneratorBodyDefNode.generate_function_definitions emits no `->resume_label = <negative constant>;` in the exit code of the generator body: a generator that '
+                  'returned keeps the number of its last yield point, the next send()/next() jumps back into the finished body (the C runtime tests resume_label == -1 for "terminated")')
+        finished = {-1}     # the value the C side tests for; the remaining clauses are evaluated against it
     for t in sorted(finished):
         if t >= 0:
             r.violate('finished-marker', 'Cython/Compiler/Nodes.py', gf.lineno,
